@@ -23,7 +23,18 @@ def main():
             raise
         check.harness_error("%s: %s\n%s" % (type(e).__name__, e, traceback.format_exc()[-3000:]))
     code = check.finish(level=getattr(sys.modules.get("props." + pid), "LEVEL", "model_checking"))
-    sys.exit(code)
+    # leave without tearing the interpreter down: scheduler threads of the concurrency harnesses are daemon threads parked
+    # on events, and z3 objects are still referenced from them; finalising both at exit crashed the process (twice in several
+    # hundred runs) after the verdict had been written
+    sys.stdout.flush()
+    sys.stderr.flush()
+    for closer in ("realproc.shutdown", "driver.close_pool"):
+        try:
+            m_, f_ = closer.split(".")
+            getattr(importlib.import_module("symx." + m_), f_)()
+        except Exception:
+            pass
+    os._exit(code)
 
 
 if __name__ == "__main__":
